@@ -15,7 +15,8 @@
 (***************************************************************************)
 EXTENDS Naturals, FiniteSets, Sequences, TLC
 
-CONSTANTS Threads, MaxAttempts, NeedsDrop, SeedDropInside
+CONSTANTS Threads, MaxAttempts, NeedsDrop, SeedDropInside,
+          PublishLate   \* TRUE: the once is completed by the closure and the value is written after it (a mutant)
 
 VARIABLES once, seed, value, runner,
           pc,        \* "idle" | "want" | "init" | "after" | "ret"
@@ -46,7 +47,7 @@ Enter(t) == /\ pc[t] = "want" /\ once = "empty"
 
 (* f(&mut seed) returns Ok: the state becomes `init`, the seed escapes the closure *)
 InitOk(t) == /\ pc[t] = "init" /\ runner = t
-             /\ value' = "live" /\ once' = "done" /\ runner' = "nobody"
+             /\ value' = (IF PublishLate THEN value ELSE "live") /\ once' = "done" /\ runner' = "nobody"
              /\ seed' = IF seed = "live" THEN (IF NeedsDrop THEN "moved" ELSE "forgotten") ELSE seed
              /\ okCount' = okCount + 1
              /\ pc' = [pc EXCEPT ![t] = "after"]
@@ -62,7 +63,8 @@ DropSeed(t) == /\ pc[t] = "after"
                /\ IF seed = "moved" THEN seed' = "dropped" /\ seedDrops' = seedDrops + 1 ELSE UNCHANGED <<seed, seedDrops>>
                /\ pc' = [pc EXCEPT ![t] = "ret"]
                /\ out' = [out EXCEPT ![t] = "ref"]
-               /\ UNCHANGED <<once, value, runner, attempts, okCount, valueDrops, cellAlive>>
+               /\ value' = (IF PublishLate THEN "live" ELSE value)
+               /\ UNCHANGED <<once, runner, attempts, okCount, valueDrops, cellAlive>>
 Return(t) == /\ pc[t] = "ret" /\ pc' = [pc EXCEPT ![t] = "idle"] /\ out' = [out EXCEPT ![t] = "none"]
              /\ UNCHANGED <<once, seed, value, runner, attempts, okCount, seedDrops, valueDrops, cellAlive>>
 
@@ -93,4 +95,7 @@ NoLeak == ~cellAlive => /\ (value \in {"none", "dropped"})
                         /\ (NeedsDrop => seed = "dropped")
 (* everybody who gets a reference gets it after the single successful initialisation *)
 RefOnlyWhenDone == \A t \in Threads : out[t] = "ref" => once = "done"
+(* a reference (from get, or from the fast path of get_or_init on another thread) points at the value: *)
+(* the cell reads as initialised only once the value is in place                                       *)
+PublishedWhole == (once = "done" /\ cellAlive) => value = "live"
 ==============================================================================
